@@ -34,7 +34,7 @@ JSB = [('magic', 0, 4), ('blocktype', 4, 4), ('blocksize', 12, 4), ('maxlen', 16
        ('feature_compat', 36, 4), ('feature_incompat', 40, 4), ('nr_users', 64, 4), ('csum_type', 0x50, 1), ('checksum', 0xfc, 4)]
 
 POINTER_FIELDS = {'file_acl', 'iblock0', 'iblock1', 'iblock2', 'iblock3', 'iblock5', 'iblock12', 'iblock13', 'iblock14', 'start_lo', 'leaf_lo', 'block_bitmap', 'inode_bitmap', 'inode_table'}
-CLASSES = ['sb', 'gd', 'bbitmap', 'ibitmap', 'inode', 'extent', 'ind', 'dirent', 'dx', 'xattr', 'special', 'jsb', 'bytes', 'blockop', 'dirloop', 'eadup']
+CLASSES = ['sb', 'gd', 'bbitmap', 'ibitmap', 'inode', 'extent', 'ind', 'dirent', 'dx', 'xattr', 'special', 'jsb', 'bytes', 'blockop', 'dirloop', 'eadup', 'dirmap']
 KINDS = ['zero', 'ones', 'inc', 'dec', 'bitflip', 'random', 'swap', 'other_block', 'meta_block', 'out_of_range', 'small', 'wrap']
 SUMMARY_CLASSES = ['bbitmap', 'ibitmap', 'gd_counts', 'gd_flags', 'csum_field']
 
@@ -467,6 +467,28 @@ def _apply_one(img, cls, obj, field, kind, val, fixup):
         else: img.wr(o, struct.pack('<I', blk & 0xffffffff))
         img.fix_inode(t_ino)
         return 'eadup xattr blk %d%s also first data block of ino %d' % (blk, note, t_ino)
+    if cls == 'dirmap':
+        # the block map of a DIRECTORY inode: first extent (start / length / entry count) or first block pointer set to an invalid or boundary value, so that the directory
+        # loses its first (often only) block
+        ds = [d_ for d_ in img.dirs if d_ != 2 or field % 7 == 6]
+        if not ds: return None
+        ino = ds[obj % len(ds)]; I = fs.read_inode(ino); o = img.ino_off(ino) + 0x28
+        if I.flags & e4ref.FL_INLINE: return None
+        if I.flags & e4ref.FL_EXTENTS:
+            magic, ents, mx, depth = struct.unpack_from('<HHHH', I.iblock, 0)
+            if magic != 0xF30A or ents < 1: return None
+            which = field % 4
+            if depth:
+                n, old, new = _field(img, o + 12, EXT_IDX, 1, kind, val)
+            elif which == 0: n, old, new = _field(img, o + 12, EXT_LEAF, 3, kind, val)
+            elif which == 1: n, old, new = _field(img, o, EXT_HDR, 1, KINDS.index('zero'), val)
+            elif which == 2: n, old, new = _field(img, o + 12, EXT_LEAF, 1, KINDS.index('zero'), val)
+            else: n, old, new = _field(img, o + 12, EXT_LEAF, 0, kind, val)
+            what = 'extent'
+        else:
+            old = int.from_bytes(img.rd(o, 4), 'little'); new = _mutate_value(old, 4, kind, val, img); img.wr(o, new.to_bytes(4, 'little')); n = 'iblock0'; what = 'blockmap'
+        if fixup: img.fix_inode(ino)
+        return 'dirmap dir %d %s .%s %#x->%#x%s' % (ino, what, n, old, new, ' +csum' if fixup else '')
     if cls == 'blockop':
         pool = [t[0] for t in img.tree_blocks] + [t[0] for t in img.ind_blocks] + [t[0] for t in img.dir_blocks] + img.xattr_blocks + [fs.gds()[g].bbitmap for g in range(fs.ngroups)] + [fs.gds()[0].itable]
         if len(pool) < 2: return None
@@ -572,6 +594,7 @@ def areas(desc, cfg_features=()):
             out.add('bytes-' + m.group(1)); continue
         if d.startswith('block '): out.add('blockop'); continue
         if d.startswith('eadup '): out.add('eadup-shared' if 'shared' in d else 'eadup'); continue
+        if d.startswith('dirmap '): out.add('dirmap'); continue
         if d.startswith('dirloop '): out.add('dirloop' if '..' in d else 'dir-unlinked'); continue
         out.add('other')
     return sorted(out)
